@@ -751,10 +751,12 @@ impl Seq {
                 Stmt::Spawn { task, slot } => {
                     let uid = g.uid();
                     g.live_tasks.insert(uid);
+                    // (the child's copy of the handles is taken before its own handle exists)
+                    let child = if self.legacy { Seq::new(&task, self.acc, self.legacy) } else { Seq::branch(&task, self.acc, self.legacy, &self.slots) };
                     if let Some(s) = slot {
                         self.slots.insert(s, uid);
                     }
-                    let t = TaskSt { uid, seq: Seq::new(&task, self.acc, self.legacy), polled: false };
+                    let t = TaskSt { uid, seq: child, polled: false };
                     if self.legacy {
                         g.legacy_spawn.push(t);
                     } else {
